@@ -212,6 +212,10 @@ def gen_model_cfg(rng: random.Random, tb: dict, shock_prone=False) -> dict:
         if cls == "psi":
             cfg["psi"] = rng.choice([0.8, 0.9, 1.0, 0.95])
             cfg["restoration_tau"] = rng.choice([60, 90, 30])
+    # the model's monetary factor declared on the table object (IOSystem.monetary_factor, "Via the MRIOT" in the
+    # documentation) instead of the constructor argument, which then keeps its default
+    if random.Random(repr(sorted((k_, repr(v_)) for k_, v_ in cfg.items()))).random() < 0.2:
+        cfg["mf_via_table"] = True
     return cfg
 
 
@@ -268,6 +272,8 @@ def build_model(tb: dict, cfg: dict, io=None, capital_perm=None, dict_order=None
         if cap.get("as_row"):
             s = s.T
         kw["productive_capital_vector"] = s
+    if cfg.get("mf_via_table"):
+        io.monetary_factor = kw.pop("monetary_factor")
     if cfg["class"] == "psi":
         rt = cfg.get("restoration_tau", 60)
         kw["psi_param"] = cfg.get("psi", 0.8)
@@ -524,6 +530,10 @@ def gen_scenario(seed: int, stream: str = "shocked", **over) -> dict:
         sc["sim"]["register_stocks"] = True
     if orng.random() < 0.15:
         sc["sim"]["show_progress"] = True
+    if orng.random() < 0.25:
+        # some records kept as files, the others in memory (inputs_stocks needs register_stocks)
+        names = [r for r in RECORD_NAMES if r != "inputs_stocks" or sc["sim"]["register_stocks"]]
+        sc["sim"]["save_records"] = sorted(orng.sample(names, orng.randint(1, 3)))
     if stream == "eventfree":
         # step lengths other than 1 (the documentation warns about them, but they are accepted)
         if rng.random() < 0.3:
@@ -635,8 +645,18 @@ def gen_starve(seed: int, rng: random.Random) -> dict:
             "sim": {"register_stocks": False, "save_records": [], "events_mode": "one"}}
 
 
+RECORD_NAMES = ["production_realised", "production_capacity", "final_demand", "intermediate_demand", "rebuild_demand",
+                "overproduction", "final_demand_unmet", "rebuild_prod", "inputs_stocks", "limiting_inputs",
+                "productive_capital_to_recover"]
+
+
 def build_sim(sc: dict, model=None, outdir=None):
     model = model if model is not None else build_model(sc["table"], sc["model"])
+    own_dir = None
+    if sc["sim"].get("save_records") and outdir is None:
+        import tempfile
+        own_dir = tempfile.mkdtemp(prefix="boario_verif_")
+        outdir = own_dir
     kw = dict(n_temporal_units_to_sim=sc["T"], register_stocks=sc["sim"].get("register_stocks", False))
     if sc["sim"].get("show_progress"):
         kw["show_progress"] = True
@@ -656,6 +676,10 @@ def build_sim(sc: dict, model=None, outdir=None):
         else:
             for e in evs:
                 sim.add_event(e)
+    if own_dir is not None:
+        import shutil
+        import weakref
+        weakref.finalize(sim, shutil.rmtree, own_dir, True)
     return sim
 
 
